@@ -501,7 +501,7 @@ func (j *jsonReader) DateTime(tag int) (time.Time, error) {
 	switch val := j.getValue().(type) {
 	case string:
 		if strings.HasPrefix(val, "0x") {
-			parsed, err := strconv.ParseUint(val[2:], 10, 64)
+			parsed, err := strconv.ParseUint(val[2:], 16, 64)
 			if err != nil {
 				return time.Time{}, err
 			}
@@ -509,6 +509,10 @@ func (j *jsonReader) DateTime(tag int) (time.Time, error) {
 			epoch := int64(parsed)
 			if epoch < 0 {
 				return time.Time{}, Errorf("date-time cannot be negative")
+			}
+			// Beyond year 9999 the value has no textual (RFC 3339) form and could not be encoded again.
+			if epoch > 253402300799 {
+				return time.Time{}, Errorf("date-time is out of bound")
 			}
 			return time.Unix(epoch, 0).UTC(), j.Next()
 		}
